@@ -443,7 +443,7 @@ Definition expected (s : scn) (v : cview) : list (bytes * Z) * option (Z * Z) :=
     let (g, f) := walk_bin (walk_fuel (cv_tb v)) (cv_tb v) in
     (map (fun x => (lookup (s_orcb s) (fst x), snd x)) g, f)
   else
-    (map (fun x => (lookup (s_orca s) (strip (fst x)), snd x)) (walk_lines (cv_tb v)), None).
+    (map (fun x => (lookup (s_orca s) (strip (fst x)), snd x)) (walk_lines 0 (cv_tb v)), None).
 
 Definition spec_fail (tag : string) (i : nat) (detail : list sexp) : sexp :=
   L [sym "specfail"; sym tag; L (I (Z.of_nat i) :: detail)].
